@@ -455,8 +455,12 @@ class HTTPConnectionPool(ConnectionPool, RequestMethods):
         """
         self.num_requests += 1
 
-        timeout_obj = self._get_timeout(timeout)
-        timeout_obj.start_connect()
+        if isinstance(timeout, Timeout) and timeout._start_connect is not None:
+            # urlopen() started this request's clock before it set up the tunnel.
+            timeout_obj = timeout
+        else:
+            timeout_obj = self._get_timeout(timeout)
+            timeout_obj.start_connect()
         conn.timeout = Timeout.resolve_default_timeout(timeout_obj.connect_timeout)
 
         try:
@@ -772,6 +776,9 @@ class HTTPConnectionPool(ConnectionPool, RequestMethods):
             # Is this a closed/new connection that requires CONNECT tunnelling?
             if self.proxy is not None and http_tunnel_required and conn.is_closed:
                 try:
+                    # Connecting to the proxy and the CONNECT exchange are part
+                    # of this request's connect phase: 'total' covers them too.
+                    timeout_obj.start_connect()
                     self._prepare_proxy(conn)
                 except (BaseSSLError, OSError, SocketTimeout) as e:
                     self._raise_timeout(
